@@ -203,7 +203,7 @@ pub fn replay(case: &Value) -> Vec<Violation> {
 }
 
 pub fn run(ctx: &Ctx) -> i32 {
-    let depth = ctx.tier.pick(6, 8);
+    let depth = ctx.tier.pick(8, 12);
     let acc = explore::explore(&M, depth, ctx);
     let meta = Meta {
         rule: "BFS over histories of real Gas operations from 8 limits, de-duplicated by (limit, remaining, refunded); distinct = distinct (state, op kind, remaining class)".into(),
